@@ -107,6 +107,7 @@ let show_res (f : 'a -> string) (r : 'a res) : string =
   | Ok a -> "ok " ^ f a
   | Err EIo -> "io"
   | Err EData -> "data"
+  | Err ENotFound -> "data"
   | Panic s -> "panic " ^ ocaml_string s
   | OutOfFuel -> "oof"
 
